@@ -61,6 +61,8 @@ class Store(object):
             return FileBasedTapeCassette(self.dir)
         set_world(self.world)
         self.world.owner = owner or ('c%d' % self.opened)
+        if getattr(self, 'ia_kb', None) is not None:
+            kw.setdefault('infrequent_access_kb_threshold', self.ia_kb)      # a storage-class threshold configured for this store
         try:
             return S3TapeCassette('bkt', key_prefix=self.key_prefix, read_only=read_only, transient=transient, **kw)
         finally:
